@@ -524,6 +524,19 @@ func runC05(c *Ctx) {
 		}
 	})
 	c.Rep.Exhaustive = append(c.Rep.Exhaustive, fmt.Sprintf("all %d string literals whose body is a sequence of length <= %d over \\ u 0 a F g \" n, in 7 typed positions x buffer/stream", nb, bl))
+	// token sequences: values in key position, missing or doubled separators, unbalanced brackets
+	tl := 5
+	if c.Thorough() {
+		tl = 6
+	}
+	nt := tokenSeqs(tl, func(doc []byte) {
+		d := append([]byte(nil), doc...)
+		c05Verdicts(c, d, true)
+		if len(d) <= 12 {
+			c05Typed(c, append(append([]byte(`{"x":`), d...), '}'))
+		}
+	})
+	c.Rep.Exhaustive = append(c.Rep.Exhaustive, fmt.Sprintf("all %d sequences of up to %d tokens over { } [ ] , : 1 \"a\" null true SP", nt, tl))
 	// every byte value as the escape letter, as each of the four hex digits, and raw
 	for x := 0; x < 256; x++ {
 		for _, f := range []string{"\"\\%c\"", "\"\\u000%c\"", "\"\\u00%c0\"", "\"\\u0%c00\"", "\"\\u%c000\"", "\"%c\"", "\"a\\%cb\""} {
